@@ -135,10 +135,27 @@ def tlc(spec, cfg, wd, workers=None, timeout=600, simulate=None, depth=None, see
     cmd.append(spec)
     r = TLCResult()
     t0 = time.time()
-    try:
-        p = subprocess.run(cmd, cwd=sd, stdout=subprocess.PIPE, stderr=subprocess.STDOUT, text=True, timeout=timeout)
-    except subprocess.TimeoutExpired as e:
-        raise Inconclusive("TLC timeout %ss on %s/%s" % (timeout, spec, cfg)) from e
+    for attempt in (1, 2):
+        try:
+            p = subprocess.run(cmd, cwd=sd, stdout=subprocess.PIPE, stderr=subprocess.STDOUT, text=True, timeout=timeout)
+        except subprocess.TimeoutExpired as e:
+            raise Inconclusive("TLC timeout %ss on %s/%s" % (timeout, spec, cfg)) from e
+        # TLC exit codes: 0 ok, 10-13 assumption / deadlock / safety / liveness violation. Anything else that is not
+        # a parse error is a failure of the tool run itself (seen once in ~100 runs with several workers: exit 75,
+        # "error occurred when TLC was evaluating" on a spec that otherwise passes). It is repeated once with a
+        # single worker before the caller sees it; a deterministic error fails the same way again.
+        if attempt == 1 and p.returncode not in (0, 10, 11, 12, 13) and "Parsing or semantic analysis failed" not in p.stdout \
+                and "Error: Invariant" not in p.stdout and "is violated" not in p.stdout and simulate is None:
+            try:
+                with open(os.path.join(sd, "first_attempt.out"), "w") as f:
+                    f.write(p.stdout)
+            except OSError:
+                pass
+            shutil.rmtree(os.path.join(sd, "meta"), ignore_errors=True)
+            i = cmd.index("-workers")
+            cmd[i + 1] = "1"
+            continue
+        break
     r.wall = time.time() - t0
     r.output = p.stdout
     r.exit = p.returncode
